@@ -131,9 +131,15 @@ func c13Run(c *core.Ctx, keyName, method string, kind int) {
 		k.forceAuthn = boolPtr(false)
 	}
 	k.format = []saml.NameIDFormat{"", saml.EmailAddressNameIDFormat, saml.PersistentNameIDFormat, saml.UnspecifiedNameIDFormat}[c.Rng.Intn(4)]
-	sp, _ := c12SP(k)
+	cfg, _ := c12SP(k)
+	if c13LiveSP == nil { // one SP object per process, given the configuration of each case in turn (keys, method, metadata)
+		c13LiveSP = &saml.ServiceProvider{}
+	}
+	sp := c13LiveSP
+	reconfigure(sp, cfg)
 	sp.Key, sp.Certificate = kp.Key, kp.Cert
 	sp.SignatureMethod = method
+	sp.Intermediates = nil
 	if c.Rng.Intn(4) == 0 { // a certificate chain: the published signing certificate is still the SP's own (the first listed)
 		sp.Intermediates = []*x509.Certificate{fx.K("idp_s2").Cert}
 		c.Count("sp_configured_with_intermediates")
@@ -410,3 +416,5 @@ func c13Ctx(r *saml.RequestedAuthnContext) string {
 	}
 	return r.Comparison
 }
+
+var c13LiveSP *saml.ServiceProvider
